@@ -31,6 +31,20 @@ def run(ck: Check, repo: Repo) -> None:
         if o.status == "violated" and ck._known_entry(o) is not None:
             o.status = "known"
     ck.obs.extend(taken)
+    # the policy's mutation is replayed on the critics with the arguments it RETURNED: a bound-stopped method that falls back to another one must
+    # return that call's result, otherwise the critics draw their own arguments (C03.2 obligations on the same methods)
+    from . import c03
+    sub3 = Check("C03", ck.tier, ck.repo_root)
+    sub3.known = []
+    c03.run(sub3, repo)
+    ck.rule("C02.8", "the arguments of the mutation applied to the policy reach the critics: a mutation method stopped by its bound leaves the architecture untouched or "
+                     "RETURNS the result of the method it falls back to (obligations of C03.2, shared with the C03 check)")
+    taken3 = [replace(o, rule="C02.8") for o in sub3.obs if o.rule == "C03.2"]
+    if len(taken3) < 20:
+        raise AnalysisError(f"C02.8: only {len(taken3)} obligations taken over from C03.2")
+    ck.obs.extend(taken3)
+    ck.rule("C02.9", "the reported mutation matches what was done: activation_mutation changes a network (in place) only on paths on which it reports 'act'")
+    _report_matches_effect(ck, repo)
     ck.not_decided += ["identity of the optimizer's parameters with the live tensors at run time",
                        "that a learn step really moves the parameters (numeric)"]
     ck.rule("C02.1", "optimizer re-creation (reinit_opt over all optimizers) post-dominates every store of a network into the individual "
@@ -506,7 +520,26 @@ def _encoder_hook(ck: Check, repo: Repo) -> None:
 
 
 _MF = "agilerl/hpo/mutation.py"
+def _report_matches_effect(ck: Check, repo: Repo) -> None:
+    from ..domains import conjuncts
+    fn = repo.fn("agilerl.hpo.mutation", "Mutations.activation_mutation")
+    cfg = CFG(fn.node)
+    perms = [c for c in calls_in(fn.node, nested=True) if call_name(c) == "self._permutate_activation"]
+    ck.floor("C02.9", len(perms), 2, "in-place permutation calls (single network and list form)", fn=fn)
+    for c in perms:
+        n = cfg.node_of(c)
+        atoms = [(ast.unparse(a).replace(" ", ""), p) for g, pol, _ in (cfg.guards_at(n) if n is not None else []) for a, p in conjuncts(g, pol)]
+        # guarded by `<module>.activation is None` being False (or `is not None` being True)
+        ok = any((t.endswith(".activationisNone") and not p) or (t.endswith(".activationisnotNone") and p) for t, p in atoms)
+        ck.ob("C02.9", fn, c, ok, "activation_mutation permutates a network only when it has an activation to mutate (the path that reports 'act')",
+              detail=f"guards: {atoms}; _permutate_activation changes the individual's network in place, so on the path that then reports 'None' (no activation found) "
+                     "the agent has received a mutation it does not report (recurrent DQN: head ReLU -> GELU, encoder output None -> GELU, mut == 'None')",
+              construct=f"activation_mutation: {short(c, 60)} guarded")
+
+
 VARIANTS = [
+    ("activation-permutated-before-no-activation-check", "agilerl/hpo/mutation.py", "                if eval_module.activation is None:\n                    no_activation = True\n                else:\n                    eval_module = self._permutate_activation(eval_module)\n", "                if eval_module.activation is None:\n                    no_activation = True\n\n                eval_module = self._permutate_activation(eval_module)\n", "fire", "C02.9"),
+    ("mlp-fallback-result-dropped", "agilerl/modules/mlp.py", "            self.hidden_size = self.hidden_size[:-1]\n        else:\n            return self.add_node()", "            self.hidden_size = self.hidden_size[:-1]\n        else:\n            self.add_node()", "fire", "C02.8"),
     ("arch-no-reinit", _MF, "        individual.mutation_hook()  # Apply mutation hook\n\n        self.reinit_opt(individual)  # Reinitialise optimizer\n", "        individual.mutation_hook()  # Apply mutation hook\n\n", "fire", "C02.1"),
     ("param-reinit-before-store", _MF, "        setattr(individual, registry.policy, offspring_policy)\n\n        self.reinit_opt(individual)  # Reinitialise optimizer\n",
      "        self.reinit_opt(individual)  # Reinitialise optimizer\n        setattr(individual, registry.policy, offspring_policy)\n\n", "fire", "C02.1"),
